@@ -462,6 +462,7 @@ func (p *wat2wasmWorker) buildStartSection() error {
 				startFound = true
 				break
 			}
+			startIdx++
 		}
 	}
 
